@@ -284,7 +284,8 @@ pub fn configs(ctx: &Ctx) -> Stats {
                 0 => Container::FastaSingle,
                 1 => Container::FastaWrapped(rng.usize(1, 90)),
                 2 => Container::FastaCrlf,
-                _ => Container::Fastq,
+                3 => Container::Fastq,
+                _ => Container::FastqWrapped(rng.usize(1, 60)),
             };
             if allow_empty {
                 st.class("input-with-base-less-records");
@@ -511,4 +512,43 @@ pub fn many_records(rng: &mut Rng, n: usize) -> Vec<Rec> {
             Rec { id: format!("m{}", i), desc: None, seq: gen_seq(rng, class, len, true) }
         })
         .collect()
+}
+
+/// thorough: tens of thousands of records so that one batch of the batch writer renders to > 64 MiB
+/// (buffer-bypass style optimisations), with a header; first line, row count and every row are judged
+pub fn hugebatch(ctx: &Ctx) -> Stats {
+    let mut st = Stats::new();
+    let mut rng = Rng::keyed(ctx.seed, "c05.hugebatch", 0);
+    for (round, k) in [5usize, 4].iter().enumerate() {
+        if ctx.expired() {
+            st.truncated = true;
+            break;
+        }
+        let cols_n = cols(*k).codes.len();
+        // counts mode: ~2 bytes per field -> records needed for ~80 MiB
+        let nrec = (80usize << 20) / (cols_n * 2 + 1) + rng.usize(0, 500);
+        let recs: Vec<Rec> = (0..nrec)
+            .map(|i| {
+                let len = rng.usize(*k, *k + 30);
+                Rec { id: format!("h{}", i), desc: None, seq: (0..len).map(|_| *rng.pick(b"ACGT")).collect() }
+            })
+            .collect();
+        let sc = Scratch::new(ctx, "c05huge");
+        let inp = write_input(&sc, "in", &recs, &Container::FastaSingle, None, &mut rng);
+        let cfg = OligoCfg { k: *k, threads: 8, memory: 4 << 30, header: true, delim: if round == 0 { " ".into() } else { "\t".into() }, norm: false, writer: Writer::Batch };
+        st.case(true, mix(round as u64) ^ mix(nrec as u64));
+        let case = || Json::obj().set("cfg", cfg.json()).set("n_records", Json::u(nrec)).set("note", Json::s("records are random ACGT of length k..k+30; not stored"));
+        note_current_case(ctx, &case());
+        match run_plain(&sc, &inp, "out.kmers", &cfg) {
+            Ok(d) => {
+                st.set_extra("output_bytes_max", Json::Int(d.len() as i128));
+                if let Err((sig, msg)) = check_rows(&d, &recs, &cfg) {
+                    st.violate(&format!("{}:hugebatch", sig), msg, case());
+                }
+            }
+            Err((sig, msg)) => st.violate(&sig, msg, case()),
+        }
+        st.sample(case());
+    }
+    st
 }
